@@ -234,6 +234,9 @@ ENGINES["orswot"]["configs"]["quick"] += [orcfg("orswot_s_4adders.cfg"),      # 
                                           orcfg("orswot_s_samectx4m.cfg")]    # same-context removes, 4 replicas, WITH merge transitions (hybrid)
 ENGINES["map_mv"]["configs"]["quick"] += [mapcfg("map_mv_s_3keys.cfg", 1, 3), mapcfg("map_mv_s_newer.cfg", 1, 2)]   # multi-key pending removes
 ENGINES["list"]["configs"]["quick"] += [{"cfg": "list_s_deep.cfg", "module": "MC_List.tla", "flags": ["--persist"], "invariants": INV_LIST}]   # identifiers of depth 3
+# MVReg value clocks over four actors (H3 seeds): siblings that agree at both ends and differ in the middle; four-way merges
+ENGINES["mvreg"]["configs"]["quick"] += [{"cfg": "mvreg_s_seen4.cfg", "module": "MC_MVReg.tla", "flags": ["--persist"],
+                                         "invariants": ["TypeOK", "RefinesA", "NoDuplicatePair", "Converge", "DupNoop", "StaleNoop", "FreshDot"]}]
 ENGINES["ident"]["configs"]["quick"] += [{"cfg": "ident_q3.cfg", "module": "MC_Ident.tla", "vectors": True, "invariants": ["OrderOK", "DenseOK"]}]
 ENGINES["clocks"]["configs"]["quick"] += [{"cfg": "clocks_q4.cfg", "module": "MC_Clocks.tla", "vectors": True, "invariants": ["OrderOK", "LatticeOK", "ForgetOK", "DotOK"]}]
 
@@ -244,7 +247,8 @@ def _t(engine, extra):
 
 _t("orswot", [orcfg("orswot_t3.cfg", timeout=3000), orcfg("orswot_t2.cfg", timeout=3000)])
 _t("mvreg", [{"cfg": "mvreg_t3.cfg", "module": "MC_MVReg.tla", "flags": ["--persist", "--laws"], "invariants": INV_MVREG, "timeout": 3000},
-             {"cfg": "mvreg_t2.cfg", "module": "MC_MVReg.tla", "flags": ["--persist", "--laws"], "invariants": INV_MVREG, "timeout": 3000}])
+             {"cfg": "mvreg_t2.cfg", "module": "MC_MVReg.tla", "flags": ["--persist", "--laws"], "invariants": INV_MVREG, "timeout": 3000},
+             {"cfg": "mvreg_s_4writers.cfg", "module": "MC_MVReg.tla", "flags": ["--persist", "--laws"], "invariants": INV_MVREG, "timeout": 3000}])
 _t("map_or", [mapcfg("map_or_tm.cfg", 2, 2, timeout=3000)])
 _t("map_mv", [mapcfg("map_mv_tm.cfg", 1, 2, timeout=3000)])
 _t("map_map_or", [mapcfg("map_map_or_t.cfg", 1, 2, timeout=3000)])
